@@ -294,7 +294,8 @@ static int do_load(const char *data, size_t len)
 
 static const char *SEVN[] = { "debug", "command", "info", "warning", "error", "fatal" };
 static const char *FACS[] = { "f1", "f2", "f3" };
-static const char *FILES[] = { "A", "B", "C" };
+static const char *FILES[] = { "A", "B", "C", "a" };      /* "a": a destination whose name differs from "A" in case only */
+#define NFILES 4
 
 static void emit_all(const char *tag, struct char_vector *out)
 {
@@ -304,7 +305,7 @@ static void emit_all(const char *tag, struct char_vector *out)
     if (plus) padlen = atoi(plus + 1);      /* "T7+1000": every message is followed by '-' and 1000 filler characters */
     pad = calloc(1, padlen + 2);
     if (padlen) { pad[0] = '-'; memset(pad + 1, 'x', padlen); }
-    for (k = 0; k < 3; ++k)
+    for (k = 0; k < NFILES; ++k)
         if (truncate(FILES[k], 0) < 0) {}
     for (fi = 0; fi < 3; ++fi) {
         struct log_type *lt = log_type_register(FACS[fi], NULL);
@@ -325,7 +326,7 @@ static void emit_all(const char *tag, struct char_vector *out)
                 log_message(lt, (enum log_severity)sv, "%s-%s-%s%s", tag, FACS[fi], SEVN[sv], pad);
         }
     }
-    for (k = 0; k < 3; ++k) {
+    for (k = 0; k < NFILES; ++k) {
         FILE *f = fopen(FILES[k], "r");
         char_vector_append_printf(out, "\"%s\":", FILES[k]);
         if (!f) { char_vector_append_string(out, "null,"); continue; }
